@@ -297,8 +297,33 @@ def shrink_ctl(sc, binary, case):
     return dict(case, ops=ops)
 
 
+def replay(path):
+    """re-run exactly one recorded case against the implementation, the model and the spec"""
+    rp = json.load(open(path))["replay"]
+    case = rp.get("case") or rp.get("correspondence_case", {}).get("case")
+    if case is None:
+        print("replay file names a broken proof obligation / correspondence, not an input:")
+        print(json.dumps(rp, indent=1)[:3000])
+        return 1
+    with vlib.Scratch() as sc:
+        binary, blog = vlib.build_go_test_binary(sc, "control", HARNESS)
+        if binary is None:
+            print("harness build failed")
+            return 1
+        if "bitmaps" in case:
+            errs, err = run_ctl_batch(sc, binary, [case], "replay")
+        else:
+            errs, _, err = run_batch(sc, binary, [case], "replay")
+        print("case:", json.dumps(case))
+        print("result (step, code): codes 1 impl<>model  2 impl<>spec  3 model<>spec  4 impl<>model final state  9 panic/error")
+        print(err or errs.get(0))
+        return 1 if (err or errs.get(0)) else 0
+
+
 def main(argv):
     args = vlib.main_args(argv)
+    if args.replay:
+        return replay(args.replay)
     out = vlib.Outcome(PID, args.tier, args.seed)
     rng = vlib.rng_for(args.seed, PID)
     n_cases = 400 if args.tier == "quick" else 6000
